@@ -11,7 +11,7 @@ Ltac Zify.zify_post_hook ::= Z.div_mod_to_equations.
 Local Opaque wrap32 fresh_id.
 Arguments Z.lor : simpl never.
 
-Lemma step2_wire_seq : forall s l s', step2 s l = Some s' ->
+Lemma step2i_wire_seq : forall s l s', step2i s l = Some s' ->
   (wire (base s') = wire (base s) /\ seqno (base s') = seqno (base s)) \/
   (exists w, wire (base s') = w :: wire (base s) /\ seqno (base s') = wrap32 (seqno (base s) + 2) /\
              w_seq w = if is_content w then Z.lor (seqno (base s)) 1 else seqno (base s)).
@@ -21,6 +21,15 @@ Proof.
   - left. rewrite base_warn2. split; reflexivity.
   - pose proof (dispatch2_ok f ks s) as D. left. split; apply D.
   - apply notify_b_inv in H1. destruct H1 as [[_ E]|(t & k & j & L & P & K & E)]; subst b'; left; split; reflexivity.
+Qed.
+
+Lemma step2_wire_seq : forall s l s', step2 s l = Some s' ->
+  (wire (base s') = wire (base s) /\ seqno (base s') = seqno (base s)) \/
+  (exists w, wire (base s') = w :: wire (base s) /\ seqno (base s') = wrap32 (seqno (base s) + 2) /\
+             w_seq w = if is_content w then Z.lor (seqno (base s)) 1 else seqno (base s)).
+Proof.
+  intros s l s' H. apply step2_flush in H. destruct H as (s1 & H & E). subst. rewrite base_flush.
+  eapply step2i_wire_seq; eauto.
 Qed.
 
 Lemma InvB_step2 : forall s l s', InvB (base s) -> step2 s l = Some s' -> InvB (base s').
@@ -46,15 +55,20 @@ Lemma reconnect_keeps_numbering : forall s clk s', keyed s = true -> rx (base s)
   gen s' = S (gen s) /\ seqno (base s') = seqno (base s) /\ last_id (base s') = last_id (base s) /\
   wire (base s') = wire (base s) /\ keyex s' = keyex s /\ plain_out s' = plain_out s.
 Proof.
-  intros s clk s' K R H. simpl in H. rewrite K in H. simpl in H. unfold step_rx2 in H. rewrite R in H.
-  inversion H. subst. simpl. auto 8.
+  intros s clk s' K R H. unfold step2 in H. simpl in H. rewrite K in H. simpl in H. unfold step_rx2 in H. rewrite R in H.
+  inversion H. subst. rewrite base_flush.
+  assert (F : gen (flush (reconnect2 s)) = gen (reconnect2 s) /\ keyex (flush (reconnect2 s)) = keyex (reconnect2 s) /\
+              plain_out (flush (reconnect2 s)) = plain_out (reconnect2 s)).
+  { unfold flush. destruct (perr (reconnect2 s)); auto. destruct (rx (base (reconnect2 s))); auto.
+    unfold warn2. cbn [wch set_perr]. destruct (wch (reconnect2 s)) as [|cap n]; [|destruct (Nat.ltb n cap)]; auto. }
+  destruct F as (F1 & F2 & F3). rewrite F1, F2, F3. simpl. auto 8.
 Qed.
 
 (* ---- acknowledgements ---------------------------------------------------------------------------- *)
 
-(* as long as no frame ended in an error ([failed] = 0: such a frame is abandoned, together with the
-   acknowledgements of the containers around it), the acknowledgements still missing are exactly the
-   ones on the receive loop's stack - also at the notify and reconnect pcs *)
+(* the acknowledgements still missing are exactly the ones on the receive loop's stack - also at the notify and
+   reconnect pcs, and whatever happened to the messages themselves: a message whose body could not be handled
+   keeps its place on the stack (its KTail) like any other, and does not touch the rest of the stack *)
 Definition owed2 (r : rpc) : option (list Z) :=
   match r with
   | RNotify _ ks => Some (tails ks)
@@ -64,8 +78,6 @@ Definition owed2 (r : rpc) : option (list Z) :=
 
 Definition InvD2b (b : state) : Prop :=
   match owed2 (rx b) with Some o => incl (unacked (elog b)) o | None => True end.
-
-Definition InvD2 (s : state2) : Prop := failed s = O -> InvD2b (base s).
 
 Lemma owed2_settle : forall ks, owed2 (settle ks) = Some (tails ks).
 Proof.
@@ -86,55 +98,35 @@ Proof.
   - (* ack received *) simpl in I. rewrite owed2_settle. auto.
 Qed.
 
-Lemma failed_warn2 : forall x, failed (warn2 x) = failed x.
-Proof. intros x. unfold warn2. destruct (wch x) as [|cap n]; [|destruct (Nat.ltb n cap)]; auto. Qed.
-
-Lemma failed_handle2 : forall x, failed (handle2 x) = failed x.
-Proof. intros x. unfold handle2. destruct (handler x); auto. apply failed_warn2. Qed.
-
-Lemma failed_fail2 : forall x, failed (fail2 x) = S (failed x).
-Proof. intros x. unfold fail2. rewrite failed_warn2. reflexivity. Qed.
-
-Lemma dispatch2_owed : forall f ks s, failed (dispatch2 f ks s) = O ->
+Lemma dispatch2_owed : forall f ks s,
   incl (unacked (elog (base s))) (tails ks) -> InvD2b (base (dispatch2 f ks s)).
 Proof.
-  intros [[sid seq] b] ks s F I. unfold dispatch2, InvD2b in *.
+  intros [[sid seq] b] ks s I. unfold dispatch2, InvD2b in *.
   assert (U : incl (unacked (ERecv sid seq :: elog (base s))) (tails (KTail sid seq :: ks))).
   { unfold unacked. simpl. destruct (Z.odd seq); simpl; auto.
     intros x [H|H]; [left; auto|right; auto]. }
-  destruct (negb (decodes (hinted_for b (base s)) b)); [rewrite failed_fail2 in F; discriminate|].
+  assert (FAIL : match owed2 (rx (base (fail2 (KTail sid seq :: ks) (upd_base (log (ERecv sid seq)) s)))) with
+                 | Some o => incl (unacked (elog (base (fail2 (KTail sid seq :: ks) (upd_base (log (ERecv sid seq)) s))))) o
+                 | None => True end).
+  { rewrite base_fail2. cbn [rx set_rx elog upd_base base wb log]. rewrite owed2_settle. exact U. }
+  destruct (negb (decodes (hinted_for b (base s)) b)); [exact FAIL|].
   destruct (strip b);
     repeat match goal with
-           | _ : context [lookup ?a ?t] |- _ => destruct (lookup a t)
+           | |- context [lookup ?a ?t] => destruct (lookup a t)
            end;
-    try (rewrite failed_fail2 in F; discriminate);
+    try exact FAIL;
     cbn [base upd_base wb adopt2 rx set_rx owed2 owed elog log set_salt]; rewrite ?base_handle2;
     cbn [base upd_base wb adopt2 rx set_rx owed2 owed elog log set_salt];
     rewrite ?owed2_settle, ?tails_items; auto.
 Qed.
 
-Lemma failed_mono : forall s l s', step2 s l = Some s' -> failed s' = O -> failed s = O.
+Lemma InvD2_step2i : forall s l s', InvD2b (base s) -> step2i s l = Some s' -> InvD2b (base s').
 Proof.
-  intros s l s' H F. apply step2_inv in H. destruct H; auto.
-  - rewrite failed_warn2 in F. discriminate.
-  - destruct f as [[sid seq] b]. unfold dispatch2 in F.
-    destruct (negb (decodes (hinted_for b (base s)) b)); [rewrite failed_fail2 in F; discriminate|].
-    destruct (strip b);
-      repeat match goal with
-             | _ : context [lookup ?a ?t] |- _ => destruct (lookup a t)
-             end;
-      try (rewrite failed_fail2 in F; discriminate); cbn [upd_base wb failed adopt2] in F;
-      rewrite ?failed_handle2 in F; auto.
-Qed.
-
-Lemma InvD2_step : forall s l s', InvD2 s -> step2 s l = Some s' -> InvD2 s'.
-Proof.
-  intros s l s' I H F. pose proof (failed_mono _ _ _ H F) as F0. specialize (I F0).
-  apply step2_inv in H. destruct H.
+  intros s l s' I H. apply step2_inv in H. destruct H.
   - eapply InvD2_step1; eauto. apply lifted_old_ok; auto.
   - exact I.
   - exact I.
-  - rewrite failed_warn2 in F. discriminate.
+  - rewrite base_warn2. unfold InvD2b in *. cbn [base upd_base wb bump_failed rx set_in elog]. exact I.
   - apply dispatch2_owed; auto. unfold InvD2b in I. rewrite H0 in I. exact I.
   - unfold InvD2b in *. cbn [base upd_base wb rx set_rx elog]. rewrite H0 in I. rewrite owed2_settle. exact I.
   - apply notify_b_inv in H1. destruct H1 as [[_ E]|(t & k & j & L & P & K & E)]; subst b';
@@ -142,9 +134,10 @@ Proof.
   - unfold InvD2b in *. rewrite H0 in I. exact I.
 Qed.
 
-Lemma InvD2_run : forall c ls s, run2 (init2 c) ls = Some s -> InvD2 s.
+Lemma InvD2_run : forall c ls s, run2 (init2 c) ls = Some s -> InvD2b (base s).
 Proof.
-  intros c. apply run2_invariant.
-  - intros _. unfold InvD2b. simpl. intros x Hx. exact Hx.
-  - intros s l s' D H. eapply InvD2_step; eauto.
+  intros c. apply (run2_invariant (fun s => InvD2b (base s))).
+  - unfold InvD2b. simpl. intros x Hx. exact Hx.
+  - intros s l s' D H. apply step2_flush in H. destruct H as (s1 & H & E). subst. rewrite base_flush.
+    eapply InvD2_step2i; eauto.
 Qed.
